@@ -218,6 +218,29 @@ Section Cryptobox.
     | r => EventIgnored r
     end.
 
+  (* the same branch with the whole handler loop:
+       for subscription in list(self._subscriptions[msg.subscription]):
+           if not subscription.active: continue
+           topic = msg.topic or subscription.topic
+           if msg.enc_algo: decode AGAIN for this handler; no codec / decode raises / topic differs -> return
+           invoke handler (details_arg only adds an EventDetails keyword)
+     `return` leaves onMessage: no later handler of the subscription is invoked either.  Result: the handler
+     invocations in order (handler id, args, kwargs). *)
+  Record ehandler := mkHandler { h_id : N; h_active : bool; h_topic : string (* subscription.topic *) }.
+  Definition event_topic (msg_topic : option string) (h : ehandler) : string :=
+    match msg_topic with Some t => t | None => h_topic h end.
+  Fixpoint dispatch_event (codec : option keyring) (msg_topic : option string) (b : body) (hs : list ehandler)
+    : list (N * list V * kw) :=
+    match hs with
+    | [] => []
+    | h :: rest =>
+        if negb (h_active h) then dispatch_event codec msg_topic b rest
+        else match receive codec false (event_topic msg_topic h) b with
+             | RPayload a k => (h_id h, or_nil a, or_nil k) :: dispatch_event codec msg_topic b rest
+             | _ => []
+             end
+    end.
+
   (* the ApplicationError built for the three failure cases *)
   Definition enc_error_uri (r : recv) : string :=
     match r with
@@ -272,12 +295,12 @@ Section Cryptobox.
     mkCexn CLS_ApplicationError (Some u) [enc_note u] (Some []) true
            (map (fun n => (n, FromKw None)) RESERVED) [].
   Definition exception_from_message_codec
-             (construct : cls -> shape -> list V -> kw -> ctor_result V MV) (reg : registry)
+             (construct : cls -> shape -> list V -> kw -> ctor_result V MV) (caller_hook : hook) (reg : registry)
              (codec : option keyring) (rtype req : N) (error : string) (b : body) (meta : string -> option MV)
     : res (cexn V MV) * bool :=
     match on_error_codec codec error b with
     | ErrEnc u => (Ok (enc_exn u), false)
-    | ErrPayload a k => exception_from_message construct reg (mkErr rtype req error a k meta)
+    | ErrPayload a k => exception_from_message construct caller_hook reg (mkErr rtype req error a k meta)
     end.
 End Cryptobox.
 
